@@ -83,6 +83,7 @@ type Explorer struct {
 	HostStringHook func(in *Interp, s string) Value
 	InterpretPkgs  []string // extra package path prefixes allowed for interpretation
 	EnvMax int
+	Seed int
 	ByteLo, ByteHi int64
 	BufMaxLen int64
 	Regexes map[string]int
